@@ -49,6 +49,7 @@ struct Ledger
     int junk = 0;       // 0: 0x00  1: 0xFF  2: 0xA5  3: prng
     Rng junk_rng{12345};
     bool in_library_call = false;  // raised around library calls (C07: operator new bypass detection)
+    uint64_t new_in_library_call = 0;  // operator new reached from inside a library call, not through harness code
     void (*release_hook)(uintptr_t base, size_t bytes) = nullptr;
 
     static Ledger& get()
@@ -67,6 +68,7 @@ struct Ledger
 
     void* allocate(int arena, int tag, size_t bytes, size_t align)
     {
+        HarnessScope hs;
         ++alloc_events;
         if (fail_countdown >= 0)
         {
@@ -151,6 +153,7 @@ struct Ledger
 
     void deallocate(int arena, int tag, void* ptr, size_t bytes) noexcept
     {
+        HarnessScope hs;
         ++dealloc_events;
         const auto p = reinterpret_cast<uintptr_t>(ptr);
         if (out().verbose)
@@ -241,8 +244,22 @@ struct LibCall
 {
     bool prev;
     LibCall() : prev(ledger().in_library_call) { ledger().in_library_call = true; }
-    ~LibCall() { ledger().in_library_call = prev; }
+    ~LibCall()
+    {
+        ledger().in_library_call = prev;
+        if (!prev && ledger().new_in_library_call != 0)
+        {
+            violation("C07", "operator_new_bypass", fmt("%" PRIu64 " calls of the global operator new from inside the library call although the value types never allocate: memory was not obtained from the allocator", ledger().new_in_library_call));
+            ledger().new_in_library_call = 0;
+        }
+    }
 };
+
+// called by the replaced global operator new of engines built with VF_ARM_NEW
+inline void note_operator_new()
+{
+    if (HarnessScope::depth() == 0 && ledger().in_library_call) ++ledger().new_in_library_call;
+}
 
 // ------------------------------------------------------------------------------------------------ allocator kinds
 template <bool AlwaysEqual, bool Pocca, bool Pocma, bool Pocs, bool SocccDefault = false>
